@@ -418,3 +418,106 @@ def write_replay(prop: str, sig: dict, seed_tag: str, body: dict) -> str:
         json.dump(body, fh, indent=1, sort_keys=True, default=_jd)
         fh.write("\n")
     return path
+
+
+# --------------------------------------------------------------------------
+# reference server: a zygote under ANOTHER PYTHONHASHSEED
+# --------------------------------------------------------------------------
+
+
+class RefServer:
+    """A fresh interpreter started with a different PYTHONHASHSEED that has only
+    bootstrapped rtflite and serves `fn(arg)` requests by forking a pristine
+    child per request.  References computed here and runs executed in the local
+    zygote (hash seed 0) are thereby always compared across two hash seeds, so
+    output that depends on set/dict ordering shows up in every comparison, not
+    just in a sampled cross-check."""
+
+    def __init__(self, hashseed: int, coop_locks: bool = False):
+        env = dict(os.environ)
+        env["PYTHONHASHSEED"] = str(hashseed)
+        env["POLARS_MAX_THREADS"] = "1"
+        env["VERIF_BOOTED"] = "1"
+        env.pop("PYTHONPATH", None)
+        prog = ("import sys; sys.path.insert(0, %r); from sim import core; core._ref_server_main(%r)"
+                % (VERIF_DIR, bool(coop_locks)))
+        self.hashseed = hashseed
+        self.proc = subprocess.Popen([sys.executable, "-s", "-c", prog], stdin=subprocess.PIPE,
+                                     stdout=subprocess.PIPE, env=env, close_fds=True)
+
+    def call(self, fn_qualname: str, arg, timeout: float = CHILD_TIMEOUT + 10):
+        data = pickle.dumps((fn_qualname, arg), protocol=pickle.HIGHEST_PROTOCOL)
+        try:
+            self.proc.stdin.write(len(data).to_bytes(8, "big") + data)
+            self.proc.stdin.flush()
+        except (BrokenPipeError, OSError) as e:
+            raise HarnessError(f"reference server is gone: {e}") from e
+        fd = self.proc.stdout.fileno()
+        buf = bytearray()
+        deadline = time.monotonic() + timeout
+
+        def need(n):
+            while len(buf) < n:
+                left = deadline - time.monotonic()
+                if left <= 0:
+                    raise HarnessError(f"reference server timed out in {fn_qualname}")
+                rl, _, _ = select.select([fd], [], [], left)
+                if not rl:
+                    continue
+                b = os.read(fd, 1 << 20)
+                if not b:
+                    raise HarnessError("reference server closed its pipe")
+                buf.extend(b)
+
+        need(8)
+        n = int.from_bytes(buf[:8], "big")
+        need(8 + n)
+        tag, val = pickle.loads(bytes(buf[8:8 + n]))
+        if tag == "err":
+            raise HarnessError(f"reference server: {val[:1500]}")
+        return val
+
+    def close(self):
+        try:
+            self.proc.stdin.close()
+            self.proc.wait(timeout=5)
+        except Exception:  # noqa: BLE001
+            try:
+                self.proc.kill()
+            except Exception:  # noqa: BLE001
+                pass
+
+
+def _ref_server_main(coop_locks: bool):
+    import importlib
+
+    from . import boot
+
+    inp = sys.stdin.buffer
+    out = os.dup(1)
+    dn = os.open(os.devnull, os.O_WRONLY)
+    os.dup2(dn, 1)
+    boot.bootstrap(coop_locks=coop_locks)
+    fns: dict = {}
+    while True:
+        head = inp.read(8)
+        if len(head) < 8:
+            break
+        n = int.from_bytes(head, "big")
+        fn_qualname, arg = pickle.loads(inp.read(n))
+        try:
+            if fn_qualname not in fns:
+                modname, fname = fn_qualname.split(":")
+                fns[fn_qualname] = getattr(importlib.import_module(modname), fname)
+            res = ("ok", run_in_child(fns[fn_qualname], arg))
+        except HarnessError as e:
+            res = ("err", str(e))
+        except BaseException:  # noqa: BLE001
+            res = ("err", traceback.format_exc())
+        data = pickle.dumps(res, protocol=pickle.HIGHEST_PROTOCOL)
+        _write_all(out, len(data).to_bytes(8, "big") + data)
+    os._exit(0)
+
+
+def other_hashseed(root: int) -> int:
+    return 1 + derive(root, "reference-hashseed") % (2 ** 31 - 1)
